@@ -42,7 +42,14 @@ def run_case(tape, tier):
             code = tape.pick("code", ["bAAC", "bAAG"] if authic else ["bAAA", "bAAC", "bAAE", "bAAG"])
             signed = code in ("bAAC", "bAAG")
             curt = tape.flag("curt", 1, 3)
-            vid, keyage = gr.make_identity(b"c22-%d-%d" % (s, tape.draw("keyseed", 100)))
+            ks = tape.draw("keyseed", 100)
+            vid, keyage = gr.make_identity(b"c22-%d-%d" % (s, ks))
+            old_keyage = None
+            if signed and tape.flag("rotated_key", 1, 3):
+                # a transferable identifier ('D') whose current signing key (in everybody's keep) is no longer the one the
+                # identifier was derived from; the rotated-out key is what an attacker may hold
+                vid, old_keyage = gr.make_identity(b"c22-%d-%d" % (s, ks), code="D")
+                _v, keyage = gr.make_identity(b"c22-rotated-%d-%d" % (s, ks))
             keep[vid] = keyage
             bz, nz, mz, vz, az = memoing.Memoer.Sizes[code]
             oz = bz + nz + mz + vz + az
@@ -50,7 +57,7 @@ def run_case(tape, tier):
             pm = peermemoing.PeerMemoer(name="s%d" % s, ha=("127.0.0.1", 55210 + s), code=code, curt=curt, size=size,
                                         vid=vid if signed else None, keep={vid: keyage} if signed else None)
             assert pm.reopen()
-            senders.append(dict(pm=pm, code=code, signed=signed, curt=curt, vid=vid if signed else None))
+            senders.append(dict(pm=pm, code=code, signed=signed, curt=curt, vid=vid if signed else None, old_keyage=old_keyage))
         evil_vid, evil_key = gr.make_identity(b"evil")
         rx = peermemoing.PeerMemoer(name="rx", ha=("127.0.0.1", 55201), authic=authic, keep=keep)
         assert rx.reopen()
@@ -75,7 +82,7 @@ def run_case(tape, tier):
             src, dst, data = net.wire[wi]
             sd = sent[m][2]
             data = bytearray(data)
-            k = tape.draw("hostile_kind", 11)
+            k = tape.draw("hostile_kind", 12)
             if k == 0:
                 i = tape.draw("mut_at", len(data))
                 data[i] ^= 1 + tape.draw("mut_xor", 255)
@@ -118,6 +125,17 @@ def run_case(tape, tier):
                 sig = memoing.Memoer.sign(fake, evil_vid, head + body)
                 data = bytearray(head + body + sig)
                 kind = "resigned_by_other_key"
+            elif k == 11 and sd["signed"] and sd["old_keyage"] is not None and not sd["curt"] and gn == 0:
+                # same signer id, altered body, signed with the key that was rotated out
+                bz, nz, mz, vz, az = memoing.Memoer.Sizes[sd["code"]]
+                head = bytes(data[:bz + nz + mz + vz])
+                body = b"EVIL" + bytes(data[bz + nz + mz + vz:len(data) - az])[4:]
+                fake = peermemoing.PeerMemoer.__new__(peermemoing.PeerMemoer)
+                fake._keep = {sd["vid"]: sd["old_keyage"]}
+                fake._curt = False
+                sig = memoing.Memoer.sign(fake, sd["vid"], head + body)
+                data = bytearray(head + body + sig)
+                kind = "signed_with_rotated_out_key"
             elif k == 9:
                 data = bytearray(tape.draw("rb", 256) for _ in range(1 + tape.draw("rand_n", 80)))
                 kind = "random_bytes"
@@ -190,6 +208,8 @@ def run_case(tape, tier):
         res.probes[kname] += 1
     if authic:
         res.probes["authic_receiver"] += 1
+    if any(s["old_keyage"] is not None for s in senders):
+        res.probes["rotated_signer_key"] += 1
     first_g = next((i for i, (t, _x) in enumerate(schedule) if t == "g"), None)
     if first_g is not None and any(t == "h" for t, _x in schedule[:first_g + 1]):
         res.probes["hostile_before_genuine"] += 1
